@@ -197,7 +197,7 @@ Definition or_admits (c : doccase) : bool :=
 (* C14 *)
 Definition or_names (c : doccase) : bool :=
   match dc_impl c with
-  | ITree e => if tree_names_ok e then
+  | ITree e => if tree_in_sigma e then  (* the property restricts no names; the model's case tables do *)
                  forallb (fun '(o, _, p) => match p with Some ps => names_b o e ps | None => false end)
                          (dc_renders c)
                else true
